@@ -4,6 +4,7 @@ import (
 	"errors"
 	"fmt"
 	"io"
+	"strings"
 	"time"
 
 	"github.com/jf-tech/omniparser"
@@ -81,9 +82,12 @@ func c16Drive(args []string) int {
 				positions = append(positions, r.Intn(len(in)+1))
 			}
 		}
-		for _, pos := range positions {
+		for pi, pos := range positions {
 			for mode := 0; mode < 2; mode++ {
-				for _, sizes := range [][]int{nil, {1}} {
+				for si, sizes := range [][]int{nil, {1}} {
+					// (the three kinds of Ctx rotate over the positions; every position sees each of them within three
+					// neighbouring positions of the same mode / delivery)
+					c16CtxMode = (pi + mode + si) % 3
 					cr := &chunkReader{data: in, sizes: sizes, failAt: pos, failErr: errInjected}
 					var rd io.Reader = cr
 					if mode == 1 {
@@ -97,7 +101,8 @@ func c16Drive(args []string) int {
 					} else {
 						fr = runFaulted(it.sch, cr, len(base)+2)
 					}
-					desc := M{"item": it.Name, "pos": pos, "mode": []string{"persistent", "temporary-then-persistent"}[mode], "one_byte": sizes != nil}
+					desc := M{"item": it.Name, "pos": pos, "mode": []string{"persistent", "temporary-then-persistent"}[mode], "one_byte": sizes != nil,
+						"ctx": []string{"fresh", "served an earlier transform", "caller-set CtxAwareErr"}[c16CtxMode]}
 					sum.eval(pos > 0 && pos < len(in), desc)
 					if fr.panicked != "" {
 						violation("C16", "panic-on-reader-error", "panic after a reader error: "+fr.panicked, desc)
@@ -130,6 +135,7 @@ func c16Drive(args []string) int {
 			sum.sample(M{"item": it.Name, "fault_free": base, "positions": len(positions)})
 		}
 	}
+	c16CtxMode = 0
 	mustWriteNDJSON(outPath, events)
 	sum.done()
 	return 0
@@ -148,12 +154,37 @@ type wrapReader struct {
 
 func (w *wrapReader) Read(p []byte) (int, error) { return w.rd.Read(p) }
 
+// the Ctx a faulted run is given: a fresh one; one that already served an earlier, finished transform of the same Schema
+// (its CtxAwareErr is still that transform's); one whose CtxAwareErr the caller set itself (the documented option)
+var c16CtxMode = 0
+
+type callerCtxErr struct{}
+
+func (callerCtxErr) FmtErr(format string, args ...interface{}) error {
+	return fmt.Errorf("caller: "+format, args...)
+}
+
+func c16Ctx(sch omniparser.Schema) *transformctx.Ctx {
+	switch c16CtxMode {
+	case 1:
+		ctx := &transformctx.Ctx{}
+		if tr, err := sch.NewTransform("earlier", strings.NewReader(""), ctx); err == nil {
+			tr.Read()
+		}
+		return ctx
+	case 2:
+		return &transformctx.Ctx{CtxAwareErr: callerCtxErr{}}
+	}
+	return &transformctx.Ctx{}
+}
+
 func runFaultedGeneric(sch omniparser.Schema, rd io.Reader, cr *chunkReader, bound int) faultRun {
 	var fr faultRun
 	var tr omniparser.Transform
 	var err error
+	ctx := c16Ctx(sch)
 	p, to := guarded(2*time.Second, func() {
-		tr, err = sch.NewTransform("input", rd, &transformctx.Ctx{})
+		tr, err = sch.NewTransform("input", rd, ctx)
 	})
 	if p != "" || to {
 		fr.panicked, fr.timedOut = p, to
